@@ -175,6 +175,8 @@ def session(chk):
                         scramble(kept.result)
                     elif a == "ata":
                         facade.atapassthrough16(0, 0, 0, 0, 0, 0, 0, 0, 0, 0xEC)
+                    elif a == "tur":
+                        facade.testunitready()
                     elif a == "reattach":
                         facade(dev)
                     elif a == "probe9E":
